@@ -229,6 +229,8 @@ def check(repo, tier):
                 run.oblige('D4', (fname, scen), not bad)
                 if bad:
                     run.add(F(fname, 'D4', 'Kronecker power', f'{scen}: ' + '; '.join(bad[:3])))
+    # ------------------------------------------------------------------ D4b generators of the fractals (level 1) cell by cell, and dtype of the RGB cores
+    fractal_generator_rule(run, repo, F, big)
     # ------------------------------------------------------------------ D5 two_step_destruction over rate symbols
     two_step_rule(run, repo, F)
     coefficient_rule(run, repo, F, big)
@@ -391,6 +393,54 @@ def coefficient_rule(run, repo, F, big):
         run.oblige('D6', ('fpu', d), bad is None)
         if bad:
             run.add(F('fpu_coefficients', 'D6', 'right-hand side', f'd={d}: {bad[:400]}'))
+
+
+def fractal_generator_rule(run, repo, F, big):
+    """the level-1 fractal is the generator itself; its cells are given by the definitions: Cantor dust {0, 2}^D; Vicsek cross: at most one coordinate differs
+    from the centre; multisponge (Sierpinski carpet, Menger sponge, ...): fewer than two coordinates at the centre.  Constant propagation of the core tables."""
+    specs = {'cantor_dust': lambda c: all(x != 1 for x in c),
+             'vicsek_fractal': lambda c: sum(1 for x in c if x != 1) <= 1,
+             'multisponge': lambda c: sum(1 for x in c if x == 1) < 2}
+    dims = {'cantor_dust': (1, 2, 3, 4, 5) if big else (1, 2, 3, 4), 'vicsek_fractal': (2, 3, 4, 5, 6) if big else (2, 3, 4, 5), 'multisponge': (2, 3, 4, 5) if big else (2, 3, 4)}
+    for fname, spec in specs.items():
+        for dim in dims[fname]:
+            scen = f'{fname}(dimension={dim}, level=1)'
+            try:
+                g = sym_call(repo, fname, dim, 1)
+            except Raised as e:
+                run.oblige('D4', (fname, scen, 'cells'), False)
+                run.add(F(fname, 'D4', 'generator cells', f'{scen}: raises {e}'))
+                continue
+            g = np.asarray(g)
+            bad = None
+            if g.shape != (3,) * dim:
+                bad = f'shape {g.shape}'
+            else:
+                for c in itertools.product(range(3), repeat=dim):
+                    want = 1 if spec(c) else 0
+                    if int(g[c]) != want:
+                        bad = f'cell {c} is {int(g[c])} instead of {want} ({int(g.sum())} cells set instead of {sum(1 for c_ in itertools.product(range(3), repeat=dim) if spec(c_))})'
+                        break
+            run.oblige('D4', (fname, scen, 'cells'), bad is None)
+            if bad:
+                run.add(F(fname, 'D4', 'generator cells', f'{scen}: {bad}'))
+    # rgb_fractal: three channels with matrices of possibly different dtypes: no value may be truncated when the cores are filled
+    for dts in (('int', 'real', 'real'), ('real', 'int', 'int'), ('real', 'real', 'real')):
+        scen = f'rgb_fractal(matrices of dtype {dts}, level=2)'
+
+        def body(sc):
+            n = sc.atom('n')
+            ms = [Arr([n, n], None, dt, None, {'role': f'matrix_{c}'}, f'matrix_{c}') for c, dt in zip('rgb', dts)]
+            return sc.call(f'{MOD}.rgb_fractal', ms[0], ms[1], ms[2], 2)
+        for ch, sc, res, exc in l2.explore(repo, body, typed=False):
+            if exc is not None:
+                run.oblige('D4', ('rgb_fractal', scen), False)
+                l2rules.raised_finding(run, 'C13', 'D4', repo, f'{MOD}.rgb_fractal', scen, exc)
+                continue
+            loss = sc.events('float-loss') + sc.events('complex-loss')
+            run.oblige('D4', ('rgb_fractal', scen, 'dtype'), not loss)
+            if loss:
+                run.add(F('rgb_fractal', 'D4', 'dtype of the cores', f'{scen}: {loss[0]["detail"]}'))
 
 
 def colsum_norm2(cores):
